@@ -91,3 +91,80 @@ _make_agg('aggregate', 'stdev_func', 0, S.stdev_spec, 'stdev_func', ['C12', 'C06
 for _i, (_t, _s) in enumerate([('sum', S.sum_spec), ('mean', S.mean_spec), ('min', S.min_spec),
                                ('max', S.max_spec), ('count', S.count_spec), ('stdev', S.stdev_spec)]):
     _make_agg('window', 'fn', _i, _s, f'fn_{_t}', ['C13', 'C06'])
+
+
+# ------------------------------------------------------------------ C02 rectangular tables
+from serif.table import Table  # noqa: E402
+
+
+@contract('serif.table.Table._build_column_map', props=[])
+class build_column_map:
+    """Accessor map (C17: bounded + pylang + pyframe); at the value level an opaque cache value.
+    Writes only the cache flag _wild of the columns."""
+    params = {'self': 'opaque'}
+    trusted = True
+    result_sort = 'opaque'
+
+
+def _ragged(initial):
+    return len({len(v._underlying) for v in initial}) > 1
+
+
+@contract('serif.table.Table.__init__', props=['C02', 'C18', 'C01'])
+class table_init:
+    """C02: a table built from vectors is rectangular (every column has the table's length) or
+    the input is rejected; C18/C01: column j is a fresh copy of input j with its name, dtype
+    and values."""
+    params = {'self': 'rawtable',
+              'initial': 'alt:listof:0:vector|listof:1:vector|listof:2:vector|listof:3:vector|tupleof:2:vector',
+              'dtype': 'none', 'name': 'name', 'as_row': 'bool'}
+    note = 'column count bounded to 0..3 (concrete); row count, values, names and dtypes arbitrary'
+
+    def requires(initial):
+        return all(S.truthful(v) for v in initial)
+    raises = [(SerifValueError, _ragged, True)]
+
+    def ensures(self, initial):
+        cols = self._underlying
+        if len(cols) != len(initial):
+            return False
+        if len(initial) == 0:
+            return self._length == 0
+        return all(len(c._underlying) == self._length
+                   and tuple(c._underlying) == tuple(v._underlying)
+                   and c._dtype == v._dtype and c._name == v._name and c is not v
+                   for c, v in zip(cols, initial))
+
+
+# ------------------------------------------------------------------ names / column resolution
+@contract('serif.naming._sanitize_user_name', props=[])
+class sanitize_user_name:
+    """Trusted at call sites as a deterministic function of the name (its output language is
+    decided separately by pylang under C17)."""
+    params = {'name': 'any'}
+    trusted = True
+
+    def returns(name):
+        return S.sanitize_name(name)
+
+
+@contract('serif.table.Table.__getitem__', props=[])
+class table_getitem:
+    """Assumed at call sites (bounded under C07/C17): a deterministic lookup."""
+    params = {'self': 'opaque', 'key': 'any'}
+    trusted = True
+    result_sort = 'opaque'
+
+
+@contract('serif.table.Table._resolve_column', props=['C14', 'C12', 'C13', 'C09'])
+class resolve_column:
+    """A key / value column given as a Vector IS that vector (never swapped for a table column
+    of the same name); a string goes through the table's own name lookup; anything else is
+    rejected."""
+    params = {'self': 'alt:table0|table2', 'spec': 'alt:vector|int|none'}
+    from serif.errors import SerifTypeError as _E
+    from serif.vector import Vector as _V
+    raises = [(_E, lambda spec: not isinstance(spec, (str, resolve_column._V)), True)]
+
+    def returns(spec):
+        return spec
